@@ -18,6 +18,10 @@ func genC16(p *Plan, r *RNG) {
 		genC16SlowControl(p, r)
 		return
 	}
+	if r.Chance(1, 6) {
+		genC16Real(p, r)
+		return
+	}
 	baseSrvConfig(p, r)
 	p.Flavor = "tcprelay"
 	p.Cfg.Listener = "tcp"
@@ -285,4 +289,153 @@ func genC16SlowControl(p *Plan, r *RNG) {
 	add(Op{Actor: "c1", Kind: "binding", At: gap(500 * ms)})
 	add(Op{Actor: "c2", Kind: "binding", At: gap(200 * ms)})
 	p.QuietNS = 40 * sec
+}
+
+// genC16Real: the real client's TCPAllocation (Dial / Accept, data connections opened and bound
+// by the library itself) against the real server, with scripted TCP peers. Operations flagged
+// "expect" are those the plan keeps inside the conditions under which they have to succeed:
+// a Dial to a listening peer not dialled before, an Accept within 20 s of the one connection
+// a permitted peer made for it.
+func genC16Real(p *Plan, r *RNG) {
+	baseSrvConfig(p, r)
+	p.Flavor = "e2e-tcprelay"
+	p.Cfg.Listener = "tcp"
+	p.Cfg.Extra = map[string]int64{"tcp_peers": 1}
+	p.Cfg.LatCSns = int64(r.Range(1, 80))*ms + int64(r.Intn(1000))*7 + 3
+	p.Cfg.LatSPns = int64(r.Range(1, 40))*ms + int64(r.Intn(1000))*11 + 5
+	p.Cfg.PermTimeoutS = r.PickInt([]int{0, 0, 600})
+	p.Cfg.AllocLifeS = r.PickInt([]int{0, 600, 3600})
+	p.Cfg.RTOms = r.PickInt([]int{0, 100, 200})
+	p.Clients = []ClientSpec{{ID: "c1", Addr: "10.0.1.1:4000", User: "u1", Pass: "pw-one", Kind: "real"}}
+	np := r.Range(2, 4)
+	for i := 0; i < np; i++ {
+		p.Peers = append(p.Peers, PeerSpec{ID: fmt.Sprintf("p%d", i+1), Addr: fmt.Sprintf("10.0.2.%d:%d", 1+i, 5000+i*17)})
+	}
+	if r.Chance(1, 3) {
+		cuts, reads := genCuts(r)
+		p.Streams = []StreamCut{{Conn: "*", Cuts: cuts, Reads: reads, Coalesce: r.Chance(1, 2)}}
+	}
+	add := func(o Op) { p.Ops = append(p.Ops, o) }
+	add(Op{Actor: "c1", Kind: "alloc_tcp", At: gap(sec)})
+	add(Op{Actor: "", Kind: "wait", At: gap(1500 * ms)}) // the allocation exists before the application uses it
+	nconn := 0                 // connections the application has asked for (slots)
+	npeerc := map[string]int{} // peer-side connections (upper bound)
+	dialled := map[int]bool{}
+	permitted := map[int]bool{}     // a permission for the peer's IP certainly exists
+	everPermitted := map[int]bool{} // one was asked for at some time (it may or may not have lapsed)
+	acceptClean := true
+	lens := []int{1, 10, 100, 1000, 5000, 40000}
+	data := func(k int) {
+		for ; k > 0; k-- {
+			g := gap(int64(r.Range(20, 1200)) * ms)
+			if r.Chance(1, 2) && nconn > 0 {
+				add(Op{Actor: "c1", Kind: "conn_write", At: g, A: OpArgs{N: r.Intn(nconn), Len: r.PickInt(lens)}})
+			} else {
+				pi := r.Intn(np)
+				if n := npeerc[p.Peers[pi].ID]; n > 0 {
+					add(Op{Actor: p.Peers[pi].ID, Kind: "peer_data", At: g, A: OpArgs{N: r.Intn(n), Len: r.PickInt(lens)}})
+				}
+			}
+		}
+	}
+	rounds := r.Range(1, 6)
+	for i := 0; i < rounds; i++ {
+		pi := r.Intn(np)
+		pid, peer := p.Peers[pi].ID, p.Peers[pi].Addr
+		g := gap(int64(r.Range(100, 2500)) * ms)
+		if r.Chance(1, 8) {
+			// long quiet periods: the allocation and its permissions are refreshed by the library
+			g = gap(int64(r.PickInt([]int{200, 400, 700, 2000, 4000})) * sec)
+			// (a permission asked for with Client.CreatePermission is a single request: only
+			// those the library made for a Dial are in its refresh set)
+			for k := range permitted {
+				if !dialled[k] {
+					delete(permitted, k)
+				}
+			}
+		}
+		switch w := r.Intn(100); {
+		case w < 35:
+			o := Op{Actor: "c1", Kind: "dial", At: g, A: OpArgs{Peer: peer}}
+			if !dialled[pi] {
+				o.A.Flags = []string{"expect"}
+			}
+			dialled[pi] = true
+			permitted[pi], everPermitted[pi] = true, true
+			add(o)
+			nconn++
+			npeerc[pid]++
+		case w < 70:
+			if !permitted[pi] {
+				add(Op{Actor: "c1", Kind: "perm", At: g, A: OpArgs{Peer: peer}})
+				permitted[pi], everPermitted[pi] = true, true
+				g = gap(int64(r.Range(500, 2000)) * ms)
+			}
+			// the peer connects; the application accepts a little earlier or up to 20 s later
+			delta := int64(r.Range(0, 20000)) * ms
+			o := Op{Actor: "c1", Kind: "accept", A: OpArgs{DurNS: 28 * sec}}
+			if acceptClean {
+				o.A.Flags = []string{"expect"}
+			}
+			if r.Chance(1, 4) {
+				o.At = g
+				add(o)
+				add(Op{Actor: pid, Kind: "peer_connect", At: gap(int64(r.Range(100, 3000)) * ms), A: OpArgs{Target: "c1", N: 0}})
+			} else {
+				if r.Chance(1, 8) {
+					delta = r.PickI64([]int64{29 * sec, 29*sec + 900*ms, 30*sec + 100*ms, 31 * sec}) // at the bind deadline: either outcome
+					o.A.Flags = nil
+					acceptClean = false
+				}
+				add(Op{Actor: pid, Kind: "peer_connect", At: g, A: OpArgs{Target: "c1", N: 0}})
+				o.At = gap(delta + 1)
+				add(o)
+			}
+			nconn++
+			npeerc[pid]++
+			add(Op{Actor: "", Kind: "wait", At: gap(2 * sec)})
+		case w < 76:
+			add(Op{Actor: "c1", Kind: "dial", At: g, A: OpArgs{Peer: "10.0.2.77:9"}}) // nobody listens: refused, and the client goes on
+			nconn++
+		case w < 84:
+			// more connection attempts than the client queues, nobody accepting: its inbound path stays open
+			if !permitted[pi] {
+				add(Op{Actor: "c1", Kind: "perm", At: g, A: OpArgs{Peer: peer}})
+				permitted[pi], everPermitted[pi] = true, true
+			}
+			for k := r.PickInt([]int{3, 11, 14}); k > 0; k-- {
+				add(Op{Actor: pid, Kind: "peer_connect", At: gap(int64(r.Range(1, 100)) * ms), A: OpArgs{Target: "c1", N: 0}})
+				npeerc[pid]++
+			}
+			acceptClean = false
+		case w < 90:
+			// a peer without a permission knocks: never announced
+			q := (pi + 1) % np
+			if !everPermitted[q] {
+				add(Op{Actor: p.Peers[q].ID, Kind: "peer_connect", At: g, A: OpArgs{Target: "c1", N: 0}})
+				npeerc[p.Peers[q].ID]++
+			}
+		case w < 95:
+			if nconn > 0 {
+				add(Op{Actor: "c1", Kind: "conn_close", At: g, A: OpArgs{N: r.Intn(nconn)}})
+			}
+		default:
+			if n := npeerc[pid]; n > 0 {
+				o := Op{Actor: pid, Kind: "peer_close", At: g, A: OpArgs{N: r.Intn(n)}}
+				if r.Chance(1, 3) {
+					o.A.Flags = []string{"rst"}
+				}
+				add(o)
+			}
+		}
+		data(r.Intn(5))
+	}
+	if r.Chance(1, 3) {
+		add(Op{Actor: "c1", Kind: "close_tcp", At: gap(int64(r.Range(100, 3000)) * ms)})
+	}
+	add(Op{Actor: "", Kind: "wait", At: gap(10 * sec)})
+	p.QuietNS = 40 * sec
+	if r.Chance(1, 4) {
+		addFaults(p, r, 1)
+	}
 }
